@@ -353,6 +353,8 @@ class OpGen:
     def gen_new(self, role=None):
         s = self.src
         roles = ["host"] + (["sub"] * 2 if "sub" in self.w.classes else [])
+        if self.w.spec.get("only_roles"):
+            roles = list(self.w.spec["only_roles"])
         role = role or s.choice(roles)
         info = self.w.info(role)
         kw = {}
@@ -650,6 +652,10 @@ class OpGen:
                         if s.chance(0.5):
                             probe["v"] = self.good("int")
                         return ["kitem", probe]
+                    if kind == "set_int" and type(e) is int and s.chance(0.15):
+                        # an equal value of another type addresses the same member (membership is by equality and
+                        # hash), but is not itself a conforming member
+                        return ["float", repr(float(e))]
                     r = value_to_ref(e)
                     if r is not None:
                         return r
@@ -672,12 +678,16 @@ class OpGen:
                 args.append(an_elem(existing=not (bad and s.chance(0.5))))
                 if kind == "kset" and s.chance(0.6):
                     kw.update(self._kitem_kw(bad))
+                elif isinstance(args[0], list) and args[0][:1] == ["float"] and s.chance(0.6):
+                    args.append(args[0])  # the addressing value handed back as the new member
                 else:
                     args.append(bad_item() if bad else good_item())
             elif which == "transform":
                 args.append(an_elem(existing=not (bad and s.chance(0.5))))
                 if kind == "kset" and s.chance(0.5):
                     kw["v"] = ["fn", s.choice(BAD_FNS["int"] if bad else self.GOOD["int"])]
+                elif isinstance(args[0], list) and args[0][:1] == ["float"] and s.chance(0.6):
+                    args.append(["fn", "ident"])
                 else:
                     args.append(bad_fn() if bad else good_fn())
             else:
